@@ -262,9 +262,30 @@ const OPENERS: &[&str] = &["{% if x %}", "{% unless x %}", "{% for i in y %}", "
 
 const TAILS: &[(&str, &str)] = &[("{{", "stray delimiter"), ("{%", "stray delimiter"), ("{{ 'abc }}", "unterminated string"), ("{{ \"abc }}", "unterminated string"), ("{% if x", "unterminated tag"), ("{{ x", "unterminated output"), ("{{ x | ", "unterminated output")];
 
+/// error paths echo source text: wrong-arity / unknown filters with long non-ASCII arguments
+fn long_arg_breaks() -> BoxedStrategy<(String, &'static str)> {
+    let lit = (crate::gen::text(70), 0usize..70, any::<bool>()).prop_map(|(t, pad, dq)| {
+        let q = if dq { '"' } else { '\'' };
+        let body: String = "a".repeat(pad) + &t.chars().filter(|c| *c != q).collect::<String>();
+        format!("{q}{body}{q}")
+    });
+    prop_oneof![
+        (lit.clone(), lit.clone()).prop_map(|(a, b)| (format!("{{{{ x | upcase: {a}, {b} }}}}"), "too many filter arguments")),
+        (lit.clone(), lit.clone(), lit.clone()).prop_map(|(a, b, c)| (format!("{{{{ x | append: {a}, {b}, {c} }}}}"), "too many filter arguments")),
+        (lit.clone(), lit.clone()).prop_map(|(a, b)| (format!("{{{{ {a} | nosuchfilter: {b} }}}}"), "unknown filter")),
+        (lit.clone(), lit.clone()).prop_map(|(a, b)| (format!("{{% assign q = {a} | replace: {b}, {b}, {b} %}}"), "too many filter arguments")),
+        (lit.clone()).prop_map(|a| (format!("{{{{ x | truncate: 3, {a}, {a} }}}}"), "too many filter arguments")),
+        (lit.clone()).prop_map(|a| (format!("{{{{ x | default: k: {a} }}}}"), "unexpected keyword argument")),
+        (lit.clone()).prop_map(|a| (format!("{{% nosuchtag {a} %}}"), "unknown tag")),
+        (lit).prop_map(|a| (format!("{{% if x == {a} {a} %}}{{% endif %}}"), "malformed condition")),
+    ]
+    .boxed()
+}
+
 fn invalid() -> BoxedStrategy<Invalid> {
     let no_quotes = |s: String| s.replace(['\'', '"'], "q");
     prop_oneof![
+        3 => (wellformed(), long_arg_breaks(), wellformed()).prop_map(|(a, (b, why), c)| Invalid { src: format!("{a}{b}{c}"), why: why.into() }),
         3 => (wellformed(), proptest::sample::select(BREAKS_MIDDLE.to_vec()), wellformed()).prop_map(|(a, (b, why), c)| Invalid { src: format!("{a}{b}{c}"), why: why.into() }),
         3 => (wellformed(), proptest::sample::select(OPENERS.to_vec()), wellformed_plain()).prop_map(|(a, o, c)| Invalid { src: format!("{a}{o}{c}"), why: "unclosed block".into() }),
         2 => (wellformed(), proptest::sample::select(TAILS.to_vec())).prop_map(move |(a, (t, why))| Invalid { src: format!("{}{t}", no_quotes(a)), why: why.into() }),
